@@ -108,7 +108,7 @@ let ghost mut done: Set<String> = Set::empty();
         ensures pairs_view(r@) == url_pairs(*uri),
 """)
     with u.mod("key_keeper"):
-        with u.mod("key", uses="use std::collections::HashMap;\nuse crate::proxy::{proxy_connection::ConnectionLogger, Claims};\nuse http::Uri;\nuse log::Level as LoggerLevel;\nuse crate::common::hyper_client;\nuse vstd::std_specs::hash::*;"):
+        with u.mod("key", uses="use std::collections::HashMap;\nuse crate::proxy::{proxy_connection::ConnectionLogger, Claims};\nuse http::Uri;\nuse log::Level as LoggerLevel;\nuse std::ffi::OsString;\nuse std::path::PathBuf;\nuse crate::common::hyper_client;\nuse vstd::std_specs::hash::*;"):
             u.take(key, "Privilege", "struct")
             u.take(key, "Identity", "struct")
             for t in ("Role", "RoleAssignment", "AccessControlRules", "AuthorizationItem"):
@@ -155,6 +155,19 @@ let ghost mut done: Set<String> = Set::empty();
         ensures r == (lower(k@) == lower(key@)),  // @C02.Privilege_is_match.query_key_compared_case_insensitively
 """, what="(closure passed to find)")
             with u.impl_(key, "Identity"):
-                u.take_fn(key, "Identity::is_match", external_body=True, contract="""
-        ensures r == imatch(*self, *claims),
-""")
+                u.take_fn(key, "Identity::is_match",
+                    extra_attrs="#[verifier::loop_isolation(false)]",
+                    contract="""
+        ensures r == imatch(*self, *claims),  // @C02.Identity_is_match.every_stated_attribute_equals_callers
+""",
+                    pre_body="broadcast use axiom_os_of_string, axiom_path_of_string, axiom_string_obeys_eq_spec, axiom_string_eq_spec;",
+                    loop_iter_names={0: "it"},
+                    loops={0: """
+                invariant
+                    it.seq().len() == claims.userGroups@.len(),
+                    forall|i: int| 0 <= i < it.seq().len() ==> *(#[trigger] it.seq()[i]) == claims.userGroups@[i],
+                    !matched,
+                    forall|i: int| 0 <= i < it.index@ ==> claims.userGroups@[i]@ != group_name@,
+"""},
+                    hints=[("matched = true;", None, "before", "proof { let i0 = it.index@; assert(*it.seq()[i0] == claims.userGroups@[i0]); }")],
+                )
